@@ -390,17 +390,7 @@ def strmethod(I, s, name, args, kwargs):
                 if I.branch(SBool(s.len >= len(p))):
                     return I.str_eq(SStr([s.at(z3.IntVal(i)) for i in range(len(p))]), p)
                 return False
-            if name in ("strip", "lstrip", "rstrip"):
-                # fork on the length (bounded: the strings of this library are at most 34 characters after the
-                # length checks; beyond the bound the operation stays unsupported)
-                for L in range(0, 41):
-                    if I.branch(SBool(s.len == L)):
-                        n = L
-                        break
-                else:
-                    raise Unsupported(f"str.{name} on a symbolic string longer than 40 characters")
-            else:
-                raise Unsupported(f"str.{name} on a string of unpinned symbolic length")
+            raise Unsupported(f"str.{name} on a string of unpinned symbolic length")
         s = I.vector_of(s, n)
     s = lift_str(s)
     if name == "startswith":
